@@ -50,7 +50,8 @@ def run(c):
     reqs, meta = [], []
     for (k, r, n1, seed) in gen_params(c.rng, c.tier):
         for h in gen_histories(c.rng, k, r, c.tier):
-            reqs.append("D 3 %d %d 4 %d %d %d 0 0 0 2 %s" % (k, r, n1, seed, c.rng.below(10 ** 9), " ".join(map(str, h))))
+            # callback mode: none, buffer, NULL, alternating (the closure must not depend on who provides the buffers)
+            reqs.append("D 3 %d %d 4 %d %d %d 0 %d 0 2 %s" % (k, r, n1, seed, c.rng.below(10 ** 9), c.rng.choice([0, 0, 1, 2, 3]), " ".join(map(str, h))))
             meta.append((k, r, n1, seed, h))
     ans, crashes = ldpc.run_dec(c.snap, reqs)
     for kx, se in crashes[:5]:
